@@ -47,6 +47,7 @@ type sCase struct {
 	Pat   []int        `json:"pat"`
 	Cls   string       `json:"cls"`
 	Pts   [][][2]int64 `json:"pts"`
+	Ipts  [][][2]int64 `json:"ipts"` // integer points (integer scalar types)
 	Exp   sExp         `json:"exp"`
 	// explicit instantiation (replay of one stored violation)
 	Only *sInst `json:"only,omitempty"`
@@ -56,7 +57,7 @@ type sCase struct {
 }
 
 type sInst struct {
-	Type  string `json:"type"` // Real64 | Real32
+	Type  string `json:"type"` // Real64 | Real32 (plain objects: Float64 | Float32) | Int | Int8 | Int16 | Int32 | Int64 (plain only)
 	Mode  string `json:"mode"` // generic | concrete
 	Point int    `json:"point"`
 }
@@ -78,10 +79,39 @@ func newReal(typ string, v float64) MagicScalar {
 }
 
 func newPlain(typ string, v float64) Scalar {
-	if typ == "Real32" {
+	switch typ {
+	case "Real32":
 		return NewFloat32(float32(v))
+	case "Int":
+		return NewInt(int(v))
+	case "Int8":
+		return NewInt8(int8(v))
+	case "Int16":
+		return NewInt16(int16(v))
+	case "Int32":
+		return NewInt32(int32(v))
+	case "Int64":
+		return NewInt64(int64(v))
 	}
 	return NewFloat64(v)
+}
+
+func isIntType(typ string) bool { return strings.HasPrefix(typ, "Int") }
+
+// paramBase: the constants of a case are the parameters p_1, p_2 = x_11, x_12 of the terms
+const paramBase = 10
+
+// fullPoint lays out the evaluation environment: variables first, parameters at paramBase
+func fullPoint(vars []float64, pt []float64) []float64 {
+	x := make([]float64, paramBase+2)
+	copy(x, vars)
+	x[paramBase], x[paramBase+1] = pt[0], pt[1]
+	return x
+}
+
+func constValueAt(t *exprlib.Term, pt []float64) float64 {
+	env := exprlib.NewEnv(fullPoint(nil, pt), 0, 1)
+	return env.Eval(t).V
 }
 
 func constValue(t *exprlib.Term) float64 {
@@ -223,11 +253,11 @@ func buildObj(o *sObj, typ string, n int, x []float64, concrete bool, plainRecv 
 		}
 		return v, xs
 	case "magic0":
-		return newReal(typ, constValue(o.t)), nil
+		return newReal(typ, constValueAt(o.t, x)), nil
 	case "plain":
-		return newPlain(typ, constValue(o.t)), nil
+		return newPlain(typ, constValueAt(o.t, x)), nil
 	case "const":
-		return ConstFloat64(constValue(o.t)), nil
+		return ConstFloat64(constValueAt(o.t, x)), nil
 	case "tmp":
 		if plainRecv {
 			return newPlain(typ, 0), nil
@@ -491,8 +521,9 @@ func execute(c *sCase, in sInst, x0 []float64, aliased bool) (res sRun) {
 		return
 	}
 	if res.x == nil {
-		res.x = x0
+		res.x = x0[:c.N]
 	}
+	res.x = fullPoint(res.x, x0)
 	msg = vh.Try(func() {
 		if concrete {
 			if !callConcrete(c, r, a, b, t) {
@@ -648,31 +679,45 @@ func mixedOrders(c *sCase) bool {
 
 func scalarCase(c *sCase, line []byte, out *vh.Out, st *stats) {
 	pat := patternName(c.Roles)
-	for _, typ := range []string{"Real64", "Real32"} {
+	plainRecv := c.Objs[c.Roles.R-1].K == "plain"
+	allPlain, allReal, intOK := true, true, plainRecv
+	for _, o := range c.Objs {
+		switch o.K {
+		case "plain":
+			allReal = false
+		case "real", "magic0":
+			allPlain, intOK = false, false
+		case "tmp":
+		case "const":
+			allPlain, allReal = false, false
+		default:
+			allPlain, allReal, intOK = false, false, false
+		}
+		if o.Cl == "ninf" {
+			intOK = false
+		}
+	}
+	types := []string{"Real64", "Real32"}
+	if intOK {
+		// the integer scalar types: plain receiver, plain / constant operands, integer points
+		types = append(types, "Int", "Int8", "Int16", "Int32", "Int64")
+	}
+	for _, typ := range types {
 		for _, mode := range []string{"generic", "concrete"} {
 			if mode == "concrete" {
 				if !concreteOps[c.Op] {
 					continue
 				}
 				// the CAPITAL methods take one concrete type: all reals (a "tmp" is a real) or all plain
-				allPlain, allReal := true, true
-				for _, o := range c.Objs {
-					switch o.K {
-					case "plain":
-						allReal = false
-					case "real", "magic0":
-						allPlain = false
-					case "tmp":
-					default:
-						allPlain, allReal = false, false
-					}
-				}
-				plainRecv := c.Objs[c.Roles.R-1].K == "plain"
 				if !(allReal && !plainRecv) && !(allPlain && plainRecv) {
 					continue
 				}
 			}
-			for pi, p := range c.Pts {
+			pts := c.Pts
+			if isIntType(typ) {
+				pts = c.Ipts
+			}
+			for pi, p := range pts {
 				in := sInst{Type: typ, Mode: mode, Point: pi}
 				if c.Only != nil && *c.Only != in {
 					continue
@@ -691,13 +736,41 @@ func scalarCase(c *sCase, line []byte, out *vh.Out, st *stats) {
 					st.byOp[c.Op]++
 					st.byPattern[pat]++
 					st.insts[typ+"/"+mode]++
+					if plainRecv {
+						st.plainRecv[c.Op]++
+					}
 					if mixedOrders(c) {
 						st.mixedOrder++
 					}
+					noteBranch(st, c, al.x)
 				})
+				same := al.obs.same(fr.obs)
+				detail := func(af, ff []slotFail) vh.M {
+					return vh.M{"case": json.RawMessage(line), "only": in, "pattern": pat, "kinds": kindsName(c), "x": al.x[:c.N],
+						"params": al.x[paramBase:], "failures": af, "aliased": al.obs, "fresh": fr.obs, "fresh_failures": ff}
+				}
+				if isIntType(typ) {
+					// integer types truncate after every internal step: the demanded value is what a fresh
+					// receiver holds (the property's own reference); the TLC term only confirms that the
+					// fresh execution computes the operation at all (within 1 of the real-valued term)
+					env := exprlib.NewEnv(fr.x, unitRoundoff("Real64"), +1)
+					e := env.Eval(c.val)
+					sane := fr.obs.Panic == "" && e.Finite() && !env.Overflow && math.Abs(e.V) < 100 && math.Abs(fr.obs.Val-e.V) <= 1.0+tolK*e.E
+					st.add(func() { st.comparisons++ })
+					if !sane {
+						st.add(func() { st.intUnjudged++ })
+						continue
+					}
+					if !same && c.Cls != "info" {
+						sig := vh.M{"engine": "alias", "fam": "scalar", "op": c.Op, "pattern": pat, "what": "value", "type": typ, "mode": mode}
+						report(out, st, sig, detail([]slotFail{{What: "value", Info: cmpInfo{Expected: fr.obs.Val, Observed: al.obs.Val}}}, nil))
+					} else if !same {
+						st.add(func() { st.infoDisagree[c.Op+" "+pat]++ })
+					}
+					continue
+				}
 				af, adef, ncmp := judgeJet(c, typ, al.x, al.obs)
 				ff, fdef, ncmp2 := judgeJet(c, typ, fr.x, fr.obs)
-				same := al.obs.same(fr.obs)
 				st.add(func() {
 					st.comparisons += ncmp + ncmp2
 					if !adef || !fdef {
@@ -723,14 +796,12 @@ func scalarCase(c *sCase, line []byte, out *vh.Out, st *stats) {
 					st.add(func() { st.foreign[c.Op+" "+af[0].What]++ })
 					continue
 				}
-				detail := vh.M{"case": json.RawMessage(line), "only": in, "pattern": pat, "kinds": kindsName(c), "x": al.x,
-					"failures": af, "aliased": al.obs, "fresh": fr.obs, "fresh_failures": ff}
 				if c.Cls == "info" {
 					st.add(func() { st.infoDisagree[c.Op+" "+pat]++ })
 					continue
 				}
 				sig := vh.M{"engine": "alias", "fam": "scalar", "op": c.Op, "pattern": pat, "what": af[0].What, "type": typ, "mode": mode}
-				report(out, st, sig, detail)
+				report(out, st, sig, detail(af, ff))
 			}
 		}
 	}
@@ -740,6 +811,77 @@ func scalarCase(c *sCase, line []byte, out *vh.Out, st *stats) {
 			st.infoCases++
 		}
 	})
+}
+
+// noteBranch counts the branch regions of the piecewise operations actually entered,
+// from the value of the first operand (and the second, for the binary ones).
+func noteBranch(st *stats, c *sCase, x []float64) {
+	val := func(idx int) (float64, bool) {
+		if idx == 0 {
+			return 0, false
+		}
+		env := exprlib.NewEnv(x, unitRoundoff("Real64"), +1)
+		r := env.Eval(c.Objs[idx-1].t)
+		return r.V, !math.IsNaN(r.V)
+	}
+	kind := "real"
+	if c.Objs[c.Roles.R-1].K == "plain" {
+		kind = "plain"
+	}
+	a, okA := val(c.Roles.A)
+	b, okB := val(c.Roles.B)
+	if !okA {
+		return
+	}
+	key := ""
+	switch c.Op {
+	case "Log1pExp":
+		switch {
+		case a <= -37:
+			key = "x<=-37"
+		case a <= 18:
+			key = "-37<x<=18"
+		case a <= 33.3:
+			key = "18<x<=33.3"
+		default:
+			key = "x>33.3"
+		}
+	case "Sigmoid", "Logistic", "Abs":
+		if a >= 0 {
+			key = "x>=0"
+		} else {
+			key = "x<0"
+		}
+	case "LogAdd", "LogSub", "Min", "Max":
+		if !okB {
+			return
+		}
+		switch {
+		case math.IsInf(b, -1):
+			key = "b=-Inf"
+		case a < b:
+			key = "a<b"
+		case a > b:
+			key = "a>b"
+		default:
+			key = "a=b"
+		}
+	case "Pow":
+		if !okB {
+			return
+		}
+		switch {
+		case a == 0:
+			key = "base=0"
+		case b == math.Trunc(b):
+			key = "integer exponent"
+		default:
+			key = "fractional exponent"
+		}
+	default:
+		return
+	}
+	st.branches[c.Op+" "+kind+" "+key]++
 }
 
 func min(a, b int) int {
